@@ -36,6 +36,9 @@ var boundaryProgs = []struct {
 		[]string{"attempt to yield across", "false"}},
 	{"yield-legal-around-pcall", `local co = coroutine.wrap(function() local ok = pcall(error, "x"); local v = coroutine.yield(ok); local ok2, e = pcall(function() error("y", 0) end); coroutine.yield(v, ok2, e); return "end" end); emit(co()); emit(co(4)); emit(co())`,
 		[]string{"false", `4 false "y"`, `"end"`}},
+	{"nested-resume-limit", `local depth = 0; local function f() depth = depth + 1; return coroutine.wrap(f)() end; local ok, e = pcall(f); emit(ok, depth >= 100 and depth <= 100000, (tostring(e):gsub("^.*: ", "")))
+local function g(n) if n == 0 then return "bottom" end return coroutine.wrap(g)(n - 1) end; emit(g(150))`,
+		[]string{"false true \"C stack overflow\"", `"bottom"`}},
 	{"go-body-yields", `local w = coroutine.wrap(coroutine.yield); emit(w(1)); emit(pcall(w, 2, 3)); emit(pcall(w, 3)); local co = coroutine.create(coroutine.yield); emit(coroutine.resume(co, 1, 2)); emit(coroutine.status(co)); emit(coroutine.resume(co, 7, 8)); emit(coroutine.status(co))`,
 		[]string{"1", "true 2 3", "false", "true 1 2", `"suspended"`, "true 7 8", `"dead"`}},
 }
